@@ -445,3 +445,26 @@ Qed.
 
 Theorem json_string_roundtrip t : parse_json_string_of t = Ok (tsort t).
 Proof. apply (parse_complete _ _ (S (tdepth t))). apply of_json_sorted. lia. Qed.
+
+(* ---------- link between the regenerated tables and the constants the model is written with *)
+Lemma tables_link :
+  fixed_decimal_pattern = lit "decimal\(\s*(\d+)\s*,\s*(-?\d+)\s*\)" /\
+  slookup "ArrayType" json_keys = Some ([k_type; k_elementType; k_containsNull], [k_containsNull; k_elementType]) /\
+  slookup "MapType" json_keys = Some ([k_type; k_keyType; k_valueType; k_valueContainsNull],
+                                      [k_keyType; k_valueContainsNull; k_valueType]) /\
+  slookup "StructField" json_keys = Some ([k_name; k_type; k_nullable; k_metadata],
+                                          [k_metadata; k_name; k_nullable; k_type]) /\
+  slookup "StructType" json_keys = Some ([k_type; k_fields], [k_fields]).
+Proof. repeat split; reflexivity. Qed.
+
+Lemma tables_link_atoms :
+  (forall a, In (atomic_class a, atom_name a) atomic_type_names) /\
+  List.length atomic_type_names = 13%nat /\
+  map fst complex_type_names = ["ArrayType"; "MapType"; "StructType"]%string /\
+  nocheck_types = ["StringType"]%string /\ plain_checked_types = [] /\
+  need_conversion_const = [("DataType", false); ("DateType", false); ("TimestampType", true);
+                           ("StructType", true); ("UserDefinedType", true)]%string.
+Proof.
+  repeat split; try reflexivity.
+  intro a. destruct a; vm_compute; tauto.
+Qed.
